@@ -125,6 +125,16 @@ pub fn visible_default(ev: &Event<'_>) -> bool {
     }
 }
 
+/// Default plus every call on staging/ paths. With the shipped code staging files are private to their transaction
+/// (random O_EXCL names), so these extra points only multiply equivalent schedules; they matter if that privacy is lost.
+pub fn visible_with_staging(ev: &Event<'_>) -> bool {
+    use crate::shim::Kind::*;
+    if visible_default(ev) {
+        return true;
+    }
+    ev.rel.starts_with("staging/") && matches!(ev.kind, Open | Stat | Unlink | Rename | Write | Pwrite | Truncate | Ftruncate)
+}
+
 /// Every call under the root (used for racing opens).
 pub fn visible_all(ev: &Event<'_>) -> bool {
     !matches!(ev.kind, crate::shim::Kind::Close)
